@@ -1,4 +1,4 @@
-from typing import TypeVar, cast
+from typing import TypeVar
 
 from pyrsistent import PList, plist  # pylint: disable=unused-import
 from pyrsistent._plist import _EMPTY_PLIST  # pylint: disable=import-private-name
@@ -85,7 +85,7 @@ class PersistentList(IPersistentList[T], ISeq[T], IWithMeta):
     def pop(self) -> "PersistentList[T]":
         if self.is_empty:
             raise IndexError("Cannot pop an empty list")
-        return cast(PersistentList, self.rest)
+        return PersistentList(self._inner.rest)
 
 
 EMPTY: PersistentList = PersistentList(plist())
